@@ -8,7 +8,7 @@ PROPS = {
                 "alloc_from_array|iter / set_value_at / write_bytes / write_string / location_of_index over 20 record types of the "
                 "writers, run on the real Buffer and on the Lean model; a separate hostile stream uses out-of-range array indices "
                 "(the code has no guard; the model must predict overwrite, growth or panic). Non-trivial = at least two handles "
-                "and at least one later fill (patch); distinct = distinct op-kind sequences among those.",
+                "and at least one later fill (patch); distinct = distinct op-kind sequences among those. Plus DirSection::new on images of 0 … 100 bytes with the destination positioned anywhere: the reported directory position is the offset of the reservation in the image (dirpos).",
         "expected_tags": ["op.A", "op.W", "op.S", "op.R", "op.F", "op.T", "op.B", "op.X", "op.L", "panic", "str.astral", "str.empty"],
         "trusted_base": ["scroll's Pwrite/SizeWith (a value of type T serialises to exactly size_with(T) little-endian bytes)",
                          "str::encode_utf16 (compared with the model's encoder on every generated string)"],
@@ -51,7 +51,7 @@ PROPS = {
                 "strings, contiguity/gap patterns, shared-library shaped groups with the linker's reserved gaps, offsets equal to the previous end) "
                 "parsed by procfs-core and aggregated by the real MappingInfo::aggregate with a vDSO address that hits / misses a line; plus all "
                 "sequences of ≤ 3 (quick) / ≤ 4 (thorough) lines over a 10-line alphabet × gap bits. Non-trivial = at least one merge rule fires; "
-                "distinct = distinct (gate?, rule sequence, per-line (perms, name length)).",
+                "distinct = distinct (gate?, rule sequence, per-line (perms, name length)). Line permissions include inaccessible shared (---s) and write-only lines.",
         "expected_tags": ["rule1", "rule2", "rule3", "push", "gate.renamed"],
         "trusted_base": ["procfs-core's maps line parser (the harness feeds the parsed entries to the model)"],
         "assumptions": ["well-formed memory map: non-empty ranges, ascending, non-overlapping (what the kernel reports)",
@@ -59,7 +59,9 @@ PROPS = {
         "explanation": "C13 theorems over the Lean model of MappingInfo::aggregate (ghost-instrumented fold with an invariant proved by induction over "
                        "the lines): block decomposition / hull / admissible merge reasons, order and disjointness, cover and uniqueness, linux-gate "
                        "naming, system range inside the hull; the model is compared with the real aggregate on every generated map and the same "
-                       "decidable predicates are evaluated on the implementation's output.",
+                       "decidable predicates are evaluated on the implementation's output. C13_layout (Theorems/SystemLayout.lean): the aggregation of a well-formed map satisfies the layout hypothesis (system range inside the hull, system ranges pairwise disjoint, no 64-bit overflow) under which the sanitizer, the stack lookup and the whole gathering are total — what C12 / C06 / C02 assume of the mapping list is what C13 provides.",
+        "extra_theorems": ["C13_layout", "sortedDisjoint_lt"],
+        "extra_modules": ["MdwModel.Theorems.SystemLayout"],
     },
     "C12": {
         "rule": "real sanitize_stack_copy on a synthetic dumper: mapping layouts (0-8 mappings, 1 page … 2^40 bytes, executable or not, straddling "
@@ -189,7 +191,7 @@ PROPS = {
                        "E2E_crash_thread (Theorems/EndToEnd.lean): in the model of the thread-list loop the listed thread the crash context blames takes its "
                        "stack pointer, instruction pointer and registers from the crash context, whatever ptrace reported for it. System_crash_context (Theorems/System.lean): for the request as one function from the observed target state to the image, the exception stream carries the supplied signal data and its context is the supplied one, the same bytes the blamed thread's record points at.",
         "extra_modules": ["MdwModel.Theorems.EndToEnd", "MdwModel.Theorems.System"],
-        "extra_theorems": ["E2E_crash_thread", "E2E_other_thread", "System_crash_context"],
+        "extra_theorems": ["E2E_crash_thread", "E2E_other_thread", "System_crash_context", "System_dump_requested"],
     },
     "C04": {
         "rule": "in-process: random user_regs / fpregs / debug registers through the real ThreadInfo::fill_cpu_context; live: targets whose threads load sentinel "
@@ -231,7 +233,7 @@ PROPS = {
                 "property segment, section names last in .shstrtab, segment bias) whose answers are known by construction; and the same generated "
                 "images loaded by a live target (whole, split r / r-x, first page only, r-x + rw) and read from its memory next to the answers from "
                 "the file. Distinct = (class+endianness, build-id strategy or "
-                "error chain, soname strategy or error chain, size bucket). Generated images also with a loadable segment that begins at a non-zero file offset (p_vaddr − p_offset stays the link base). A case that does not come back within 45 s ends the run (HANG <case id>) and is reported as a violation with that case as replay.",
+                "error chain, soname strategy or error chain, size bucket). Generated images also with a loadable segment that begins at a non-zero file offset (p_vaddr − p_offset stays the link base). A case that does not come back within 45 s ends the run (HANG <case id>) and is reported as a violation with that case as replay. Generated images also with physical addresses that are zero or 1 MiB above the virtual ones.",
         "expected_tags": ["kind.file", "class.64", "class.32", "endian.be", "header.err", "buildid.note", "buildid.section", "buildid.texthash", "buildid.err",
                           "soname.phdr", "soname.section", "soname.err", "kind.wellformed", "kind.proc", "proc.consistent"],
         "theorem_namespace": "Elf.",
@@ -258,7 +260,7 @@ PROPS = {
                 "reserved gap, from a non-zero offset, read-write, some unlinked after mapping; entry point inside the executable, inside a loaded module or "
                 "nowhere; 0 … 2 caller-supplied mappings that cover a module, its first page only, the same range, an enclosing range or an unrelated one. "
                 "The expected list is computed by the model from /proc/<pid>/maps (C13 model), the effective auxiliary vector and the ELF model applied to the "
-                "files (slice mode) and to the memory image rebuilt from the map lines (process mode). Distinct = (#modules, #caller mappings, tag set). Some generated modules have the first 16 bytes of their loaded image overwritten by the target (file intact): identifier and SONAME must come from the file.",
+                "files (slice mode) and to the memory image rebuilt from the map lines (process mode). Distinct = (#modules, #caller mappings, tag set). Some generated modules have the first 16 bytes of their loaded image overwritten by the target (file intact): identifier and SONAME must come from the file. Caller mappings whose system range begins one or two pages above their start (the two are independent inputs).",
         "expected_tags": ["id.memory", "id.file", "id.none", "id.unusable", "soname.memory", "soname.file", "soname.none", "mapping.nonzero-offset",
                           "mapping.contained", "mapping.uninteresting", "entry.swapped", "entry.first", "entry.unlisted", "users", "version.some", "ref.checked", "ref.unlisted"],
         "theorem_namespace": "Mod.",
@@ -330,7 +332,7 @@ PROPS = {
         "rule": "live dumps (same generated targets and option combinations as C01): raw streams vs. the harness's own reads of /proc/<tid>/{cmdline,environ,auxv,limits,maps,status} "
                 "and /proc/cpuinfo taken while the target is blocked; memory-info list vs. the memory map through the model; handle descriptors vs. readlink/stat of "
                 "/proc/<pid>/fd; system info vs. the cpuinfo scan model; linker debug stream vs. the synthetic PHDR → PT_DYNAMIC → DT_DEBUG → r_debug → link_map chain the "
-                "target built (reached through caller-supplied auxv values). Distinct = (#map lines, #descriptors, #checks, #threads). A quarter of the live targets are the position-dependent build of the target program (ET_EXEC, load bias 0). Targets that keep a file open whose name is not UTF-8 or not ASCII: one handle descriptor per open descriptor, names by the lossy decoder.",
+                "target built (reached through caller-supplied auxv values). Distinct = (#map lines, #descriptors, #checks, #threads). A quarter of the live targets are the position-dependent build of the target program (ET_EXEC, load bias 0). Targets that keep a file open whose name is not UTF-8 or not ASCII: one handle descriptor per open descriptor, names by the lossy decoder. Synthetic linker lists with an object whose name ends with the last readable byte in front of a hole.",
         "expected_tags": ["raw.cmdline", "raw.environ", "raw.auxv", "raw.limits", "raw.maps", "meminfo.checked", "handles.checked", "sysinfo.checked", "dso.checked"],
         "trusted_base": ["the contents of /proc are what the kernel reports (external input)", "procfs-core's maps parser"],
         "assumptions": ["partial: 'as the kernel reports them' is an external input; volatile lines of /proc/<tid>/status (State, TracerPid, context-switch counters, pending signals) are masked"],
@@ -346,14 +348,14 @@ PROPS = {
                 "Distinct = distinct (kind, scenario, outcome) / parsed versions. Hostile linker data also with program-header counts beyond what an ELF header can announce (65535 … 74000) over a 4 MiB readable region. Generated modules with a note segment that ends in the middle of the build-id note. A case that does not come back within 45 s ends the run (HANG <case id>) and is reported as a violation with that case as replay.",
         "expected_tags": ["sover", "sover.some", "sover.nonascii", "dso.cyclic", "dso.mulphnum", "dso.dyn-short", "dso.linkmap-short", "dso.vaddr-underflow", "files.devshm-nonelf",
                           "files.sysv-name", "files.sover-name", "dump", "crash.ip.top", "crash.sp.top"],
-        "extra_theorems": ["C12_total", "C06_total", "C06_walk_total", "C18_walk_cycle_diverges", "System_settled", "gatherStack_settled", "gatherThread_settled", "gatherApp_settled"],
+        "extra_theorems": ["C12_total", "C06_total", "C06_walk_total", "C18_walk_cycle_diverges", "System_settled", "gatherStack_settled", "gatherThread_settled", "gatherApp_settled", "C13_layout", "System_settled_of_map"],
         "trusted_base": ["dependency code (procfs-core, goblin, nix, serde_json) is exercised, not modelled: panics inside it found by the live / fuzz runs are reported with a replay",
                          "the dev profile (overflow checks on) is what the checks run; in a release build the same inputs wrap silently"],
         "assumptions": ["'bounded time' is a step bound of the modelled loops plus a wall-clock watchdog on the live runs; the scan of a dynamic section without DT_NULL is bounded only by readable memory"],
         "explanation": "C02 theorems: the repaired link_map walk terminates on every memory (fuel > number of mapped records), evaluated self-loop; no file under /dev is ever opened for a "
                        "mapping; version parser instances incl. the formerly panicking input; imported totality theorems of the sanitiser, stack lookup and guard walk; the unrepaired walk "
-                       "provably diverges on a cyclic list. System_settled (Theorems/SystemTotal.lean): the request as one function (Model/System.lean) ends with the content of a dump or an error return for every target state that satisfies the aggregation invariants — stack and instruction pointers anywhere in the 64-bit range, any memory contents and protections, any reads failing or short, any configuration; never a panic, never out of fuel (composes C06_total and C12_total through gatherStack / gatherThread / gatherThreads / gatherApp).",
-        "extra_modules": ["MdwModel.Theorems.SystemTotal"],
+                       "provably diverges on a cyclic list. System_settled (Theorems/SystemTotal.lean): the request as one function (Model/System.lean) ends with the content of a dump or an error return for every target state that satisfies the aggregation invariants — stack and instruction pointers anywhere in the 64-bit range, any memory contents and protections, any reads failing or short, any configuration; never a panic, never out of fuel (composes C06_total and C12_total through gatherStack / gatherThread / gatherThreads / gatherApp). System_settled_of_map (Theorems/SystemLayout.lean) discharges the layout hypothesis from the C13 theorems: it holds whenever the mapping list is the aggregation (with the entry-point swap) of a memory map whose lines are ascending, non-empty and do not overlap.",
+        "extra_modules": ["MdwModel.Theorems.SystemTotal", "MdwModel.Theorems.SystemLayout"],
     },
 }
 
